@@ -432,11 +432,12 @@ static void blocks()
         for (size_t i = 0; i < len; ++i) { base[i] = (a_real)(10 + i); }
         auto guarded = [&](const std::function<void(a_real *)> &f, const std::vector<a_real> &want, const std::string &sig, const std::string &in) {
             std::vector<a_real> B(len + 6, G);
+            for (size_t i = 0; i < B.size(); ++i) { B[i] = G - (a_real)i; } // distinct guard values: these routines are block moves
             std::copy(base.begin(), base.end(), B.begin() + 3);
             f(B.data() + 3);
             ++n; nt += len > 1;
             bool ok = true;
-            for (size_t i = 0; i < B.size(); ++i) { if (B[i] != (i >= 3 && i - 3 < len ? want[i - 3] : G)) { ok = false; } }
+            for (size_t i = 0; i < B.size(); ++i) { if (B[i] != (i >= 3 && i - 3 < len ? want[i - 3] : G - (a_real)i)) { ok = false; } }
             if (!ok) { R.viol(sig, sig + ": the block of " + std::to_string(len) + " elements does not hold the defined contents afterwards (or a neighbour was written)", in); }
         };
         {
